@@ -555,6 +555,126 @@ def commandLine (s : State E) (c : Comp E) : State E × List (Bool × E) × Nat 
   | some f => (r.1, warnings ++ [(true, f)], 1)
   | none => (r.1, warnings, r.1.errorCode)
 
+/-! ## `CommandLine.main` with its options (`pybtex`, `pybtex-convert`, `pybtex-format`)
+
+`main()` is `set_strict_mode(False)`, then `parse_args` — whose `--strict` callback calls
+`set_strict_mode(True)` while the options are read, in the order they are written — then the
+argument-count check (`print_help`, exit status 1), then `run`, then `sys.exit(error_code)`.
+`__call__` wraps it: a pybtex error that escapes is printed with `ERROR: ` and the status is 1.
+The only thing modelled of `optparse` is what it does to the error channel: the `--strict`
+callback, and that a rejected option ends the process with status 2 (`OptionParser.error`) after
+the options before it have been processed. -/
+
+/-- one option as far as the error channel is concerned -/
+inductive CliOpt where
+  | strict          -- `--strict`: the callback runs `set_strict_mode(True)`
+  | other           -- any other accepted option
+  | rejected        -- an option `optparse` rejects: usage message, `sys.exit(2)`
+  | info            -- `--help` / `--version`: `optparse` prints and calls `sys.exit(0)`
+  | pluginError     -- a `load_plugin` option naming an unknown plug-in: `find_plugin` raises inside `parse_args`
+  deriving DecidableEq, Repr
+
+/-- what ends `parse_args` early -/
+inductive ArgStop (E : Type) where
+  | usage               -- `OptionParser.error`: exit status 2
+  | info                -- `--help` / `--version`: exit status 0
+  | raised (e : E)      -- a pybtex error raised by an option type checker
+  deriving Repr
+
+/-- `parse_args` on the options in the order written; `perr` is the error a `load_plugin` option
+raises (`PluginNotFound`) -/
+def applyOpts (perr : E) (s : State E) : List CliOpt → State E × Option (ArgStop E)
+  | [] => (s, none)
+  | .strict :: r => applyOpts perr (setStrict s true) r
+  | .other :: r => applyOpts perr s r
+  | .rejected :: _ => (s, some .usage)
+  | .info :: _ => (s, some .info)
+  | .pluginError :: _ => (s, some (.raised perr))
+
+/-- the command line of one of the three programs -/
+structure Argv where
+  opts : List CliOpt
+  nargs : Nat        -- number of positional arguments
+  deriving Repr
+
+/-- `CommandLine.__call__` with the real `main`: final module state, the errors written to
+`pybtex.io.stderr` with their prefix kind (`true` = `ERROR: `), exit status. -/
+def cliMain (numArgs : Nat) (perr : E) (s : State E) (a : Argv) (c : Comp E) :
+    State E × List (Bool × E) × Nat :=
+  let s1 := setStrict s false
+  match applyOpts perr s1 a.opts with
+  | (s2, some .usage) => (s2, [], 2)
+  | (s2, some .info) => (s2, [], 0)
+  | (s2, some (.raised e)) => (s2, [(true, e)], 1)
+  | (s2, none) =>
+    if a.nargs ≠ numArgs then (s2, [], 1)
+    else
+      let r := exec s2 c
+      let warnings := (printedOf r.2.1).map fun e => (false, e)
+      match r.2.2 with
+      | some f => (r.1, warnings ++ [(true, f)], 1)
+      | none => (r.1, warnings, r.1.errorCode)
+
+/-- several command lines run one after the other in the same interpreter (the module state is
+not reset in between: `error_code` is never cleared) -/
+def cliRuns (numArgs : Nat) (perr : E) (s : State E) :
+    List (Argv × Comp E) → State E × List (List (Bool × E) × Nat)
+  | [] => (s, [])
+  | (a, c) :: rest =>
+    let r := cliMain numArgs perr s a c
+    let r' := cliRuns numArgs perr r.1 rest
+    (r'.1, (r.2.1, r.2.2) :: r'.2)
+
+/-! ## Context managers left in any order (no `with` discipline)
+
+`capture()` is a generator-based context manager: each open manager keeps, in its own frame, the
+value it will put back.  `with` statements leave them innermost first (`Config`/`leave` above).
+Called by hand (`__enter__`/`__exit__`, `ExitStack` misuse, interleaved generators) they can be
+left in any order; `exitNth k` leaves the `k`-th most recently entered manager that is still open. -/
+
+inductive FOp (E : Type) where
+  | setStrict (b : Bool)
+  | enter
+  | exitNth (k : Nat)
+  | report (e : E)
+  deriving DecidableEq, Repr
+
+def fstep (c : Config E) : FOp E → Config E × Obs E
+  | .setStrict b => ({ c with st := setStrict c.st b }, .unit)
+  | .enter =>
+    let r := captureEnter c.st
+    ({ st := r.1, saved := r.2 :: c.saved }, .unit)
+  | .exitNth k =>
+    match c.saved[k]? with
+    | none => (c, .noContext)
+    | some prev =>
+      let r := captureExit c.st prev
+      ({ st := r.1, saved := c.saved.eraseIdx k }, .left r.2)
+  | .report e =>
+    let r := report c.st e
+    ({ c with st := r.1 }, r.2)
+
+def frun (c : Config E) : List (FOp E) → Config E × List (Obs E)
+  | [] => (c, [])
+  | op :: ops =>
+    let r := fstep c op
+    let r' := frun r.1 ops
+    (r'.1, r.2 :: r'.2)
+
+/-- a `with`-disciplined history as a free-order one: every exit leaves the innermost manager -/
+def Op.toFree : Op E → FOp E
+  | .setStrict b => .setStrict b
+  | .enter => .enter
+  | .exit => .exitNth 0
+  | .abort => .exitNth 0
+  | .report e => .report e
+
+/-- every exit of the history leaves the innermost open manager -/
+def lifo : List (FOp E) → Bool
+  | [] => true
+  | .exitNth k :: r => k == 0 && lifo r
+  | _ :: r => lifo r
+
 /-! ## Errors built from mutable parse state (location snapshot) -/
 
 /-- a world with some mutable parse state `σ`: the state is changed, or an error is built from
